@@ -248,8 +248,7 @@ func (dec *xmlReader) Type() Type {
 			if ty, ok := typeFromName(attr.Value); ok {
 				return ty
 			}
-			//TODO: return error
-			panic("Invalid type")
+			return typeInvalid
 		}
 	}
 	return TypeStructure
